@@ -1,12 +1,13 @@
 import TrackpyV.Model.Proto
 import TrackpyV.Driver.C02
 import TrackpyV.Driver.Linker
+import TrackpyV.Driver.C20
 
 /-! Line-protocol driver: one request per line on stdin, one response line per request. -/
 open TrackpyV
 
 def handlers : List (String × (String → String)) :=
-  Driver.C02.handlers ++ Driver.Linker.handlers
+  Driver.C02.handlers ++ Driver.Linker.handlers ++ Driver.C20.handlers
 
 def respond (line : String) : String :=
   let t := line.trimAscii.toString
